@@ -154,7 +154,9 @@ class Registry:
         self._unsup('range() with symbolic bounds', line)
 
     def symbolic_zip(self, eng, args, line):
-        self._unsup('zip() of symbolic collections', line)
+        if args and all(isinstance(a, ListV) for a in args):
+            return ZipV(args)
+        self._unsup('zip() of symbolic collections other than lists', line)
 
     def dict_of(self, eng, v, kw, line):
         self._unsup('dict() of symbolic collection', line)
